@@ -15,7 +15,9 @@
      CClose {out} CThrow {out, ...item fields} CDrop      gen.close() / gen.throw(RuntimeError) / del + gc
      Final  {left, hostchg}    entries left under TMPDIR, host canary files changed
 
-   Mode = "property": the property as stated.  Mode = "asbuilt": Inv_Isolation is replaced by
+   Mode = "confine": C09 only (Inv_Confined, Inv_Cleanup, Inv_SkipRules, Inv_Closed); labels, content and
+   completeness of the results are C10's subject and not demanded.
+   Mode = "property": C09 + C10 as stated.  Mode = "asbuilt": Inv_Isolation is replaced by
    Inv_IsolationAsBuilt (OPEN finding KF-C10-01); used only to decide whether a rejected trace is exactly
    what the as-built model predicts.                                                                *)
 EXTENDS Archive, Json, IOUtils, TLCExt
@@ -37,6 +39,7 @@ ExpPath(j) == H.apath \o "!/" \o Join(H.members[j].comps)          \* file_path 
 
 (* one result handed to the consumer *)
 ItemOK(e) ==
+  IF Mode = "confine" THEN e.m \in 0..Len(ms) ELSE
     /\ e.m \in 1..Len(ms)                                          \* it carries some member's path
     /\ e.m >= LastM                                                \* archive order
     /\ Contribution(ms[e.m]) = "must" =>
@@ -82,8 +85,9 @@ TraceFinal == /\ IsEvent("Final")
               /\ fs' = IF Ev.hostchg = 1 THEN fs \cup {<<"write", "Outside">>} ELSE fs
               /\ UNCHANGED <<gen, results, got, cause, nd>>
 
-InvAll == /\ Inv_Confined /\ Inv_Cleanup /\ Inv_SkipRules /\ Inv_Closed /\ Inv_Members
-          /\ IF Mode = "asbuilt" THEN Inv_IsolationAsBuilt ELSE Inv_Isolation
+InvAll == /\ Inv_Confined /\ Inv_Cleanup /\ Inv_SkipRules /\ Inv_Closed
+          /\ Mode # "confine" => /\ Inv_Members
+                                 /\ IF Mode = "asbuilt" THEN Inv_IsolationAsBuilt ELSE Inv_Isolation
 
 TraceInit == /\ tid \in 1..Len(Traces) /\ l = 1 /\ H = Traces[tid].hdr
              /\ fmt = H.fmt
